@@ -597,6 +597,26 @@ func genSpellings(r *rand.Rand, n int) []spelling {
 		}
 		sps = append(sps, spelling{Calls: calls, Want: wantX, Note: "range+pages+reversed"})
 	}
+	// overlapping ranges, a page followed by a range that contains it, an option between two ranges
+	for k := 0; k < 3 && n >= 2; k++ {
+		a := 1 + r.Intn(n-1)
+		b := a + 1 + r.Intn(n-a)
+		c := a + r.Intn(b-a+1) // inside [a,b]
+		d := c + r.Intn(n-c+1)
+		var want []int
+		for p := a; p <= max(b, d); p++ {
+			want = append(want, p)
+		}
+		calls := []builderCall{{Kind: "PageRange", Args: []int{a, b}}}
+		if k == 1 {
+			calls = append(calls, builderCall{Kind: []string{"ExcludeHeaders", "JoinParagraphs"}[r.Intn(2)]})
+		}
+		calls = append(calls, builderCall{Kind: "PageRange", Args: []int{c, d}})
+		if k == 2 {
+			calls = append([]builderCall{{Kind: "Pages", Args: []int{c}}}, calls...)
+		}
+		sps = append(sps, spelling{Calls: calls, Want: want, Note: "overlapping-ranges"})
+	}
 	// out of range
 	for _, bad := range []int{0, -1, n + 1, n + 100} {
 		sps = append(sps, spelling{Calls: []builderCall{{Kind: "Pages", Args: []int{1, bad}}}, Want: nil, Note: "out-of-range"})
